@@ -76,6 +76,7 @@ type StdScheduler struct {
 	feeder    chan ScheduledJob
 	dispatch  chan ScheduledJob
 	started   bool
+	run       uint64 // counts the calls of Start that started the scheduler
 
 	queue       JobQueue
 	queueLocker sync.Locker
@@ -318,7 +319,9 @@ func (sched *StdScheduler) Start(ctx context.Context) {
 	}
 
 	ctx, sched.cancel = context.WithCancel(ctx)
-	go func() { <-ctx.Done(); sched.Stop() }()
+	sched.run++
+	run := sched.run
+	go func() { <-ctx.Done(); sched.stopRun(run) }()
 
 	// start scheduler execution loop
 	sched.wg.Add(1)
@@ -496,6 +499,21 @@ func (sched *StdScheduler) Stop() {
 	sched.mtx.Lock()
 	defer sched.mtx.Unlock()
 
+	sched.stop()
+}
+
+// stopRun stops the scheduler when the context of the given run is done,
+// unless that run has been stopped and the scheduler started again since.
+func (sched *StdScheduler) stopRun(run uint64) {
+	sched.mtx.Lock()
+	defer sched.mtx.Unlock()
+
+	if sched.run == run {
+		sched.stop()
+	}
+}
+
+func (sched *StdScheduler) stop() {
 	if !sched.started {
 		sched.logger.Info("Scheduler is not running")
 		return
